@@ -905,33 +905,43 @@ def run_factories(ctx):
                 ctx.violation('parallel_beam_geometry', '%dd;defaults' % nd, 'volume-not-covered')
             sr = rho * rng.uniform(1.5, 4)
             dr = rho * rng.uniform(0.5, 4)
-            ctx.ev('factories')
-            g = TOMO.cone_beam_geometry(sp, sr, dr, num_angles=7)
-            ov = overshoot_div(sp, g, transaxial_only=True)
-            bound = sr / np.sqrt(sr ** 2 - rho ** 2) - 1 + 1e-9     # documented tan-vs-sin slack (known finding)
-            name = 'cone_beam_geometry'
-            if ov > bound:
-                ctx.violation(name, '%dd' % nd, 'volume-not-covered-beyond-known-bound', overshoot=ov, bound=bound)
-            elif ov > 1e-9:
-                ctx.violation(name, '%dd' % nd, 'volume-not-covered(tangent-ray:tan-for-sin)', overshoot=ov, bound=bound)
-            if nd == 3:
-                ova = overshoot_div(sp, g, axial_only=True)
-                if ova > 1e-9:
-                    ctx.violation(name, '3d;axial', 'volume-not-covered-axially', overshoot=ova)
-            # level (ii): extent at least the documented width 2 rho (rs + rd) / rs
-            w = g.det_params.extent[0] if nd == 3 else g.det_params.extent
-            w = float(np.atleast_1d(w)[0])
-            if w < 2 * rho * (sr + dr) / sr * (1 - 1e-9):
-                ctx.violation(name, '%dd' % nd, 'detector-narrower-than-documented-width', width=w, documented=2 * rho * (sr + dr) / sr)
-            if nd == 3:
-                # level (ii) for the height (the axial under-coverage is a listed finding: sin for tan of the half cone angle):
-                # at least the documented height 2 sin(atan(max(|z_min|, |z_max|) / (rs - rho))) (rs + rd), for volumes that reach
-                # further below the source plane than above it, lie entirely on one side of it, or straddle it
-                zabs = max(abs(float(sp.min_pt[2])), abs(float(sp.max_pt[2])))
-                hdoc = 2 * np.sin(np.arctan(zabs / (sr - rho))) * (sr + dr)
-                hgot = float(g.det_params.extent[1])
-                if hgot < hdoc * (1 - 1e-9):
-                    ctx.violation(name, '3d;axial', 'detector-lower-than-documented-height', height=hgot, documented=float(hdoc), z=(float(sp.min_pt[2]), float(sp.max_pt[2])))
+            # option paths of the helper: given / default number of angles and detector shape, short scan; the relations do not
+            # depend on them, and a given detector shape is the shape of the detector partition
+            ds_given = (int(rng.integers(3, 12)) if nd == 2 else [int(rng.integers(3, 12)), int(rng.integers(2, 9))])
+            for vname, kw in (('num_angles', dict(num_angles=7)), ('defaults', {}), ('short_scan', dict(short_scan=True, num_angles=6)),
+                              ('det_shape', dict(det_shape=ds_given, num_angles=5))):
+                ctx.ev('factories')
+                ctx.case('factory;%dd;cone' % nd, vname)
+                g = TOMO.cone_beam_geometry(sp, sr, dr, **kw)
+                if 'det_shape' in kw and tuple(np.atleast_1d(g.det_partition.shape)) != tuple(np.atleast_1d(ds_given)):
+                    ctx.violation('cone_beam_geometry', '%dd;det_shape-given' % nd, 'option-not-respected', got=tuple(g.det_partition.shape), want=ds_given)
+                if 'num_angles' in kw and g.motion_partition.shape[0] != kw['num_angles']:
+                    ctx.violation('cone_beam_geometry', '%dd;num_angles-given' % nd, 'option-not-respected', got=int(g.motion_partition.shape[0]), want=kw['num_angles'])
+                ov = overshoot_div(sp, g, transaxial_only=True)
+                bound = sr / np.sqrt(sr ** 2 - rho ** 2) - 1 + 1e-9     # documented tan-vs-sin slack (known finding)
+                name = 'cone_beam_geometry'
+                if ov > bound:
+                    ctx.violation(name, '%dd' % nd, 'volume-not-covered-beyond-known-bound', overshoot=ov, bound=bound)
+                elif ov > 1e-9:
+                    ctx.violation(name, '%dd' % nd, 'volume-not-covered(tangent-ray:tan-for-sin)', overshoot=ov, bound=bound)
+                if nd == 3:
+                    ova = overshoot_div(sp, g, axial_only=True)
+                    if ova > 1e-9:
+                        ctx.violation(name, '3d;axial', 'volume-not-covered-axially', overshoot=ova)
+                # level (ii): extent at least the documented width 2 rho (rs + rd) / rs
+                w = g.det_params.extent[0] if nd == 3 else g.det_params.extent
+                w = float(np.atleast_1d(w)[0])
+                if w < 2 * rho * (sr + dr) / sr * (1 - 1e-9):
+                    ctx.violation(name, '%dd' % nd, 'detector-narrower-than-documented-width', width=w, documented=2 * rho * (sr + dr) / sr)
+                if nd == 3:
+                    # level (ii) for the height (the axial under-coverage is a listed finding: sin for tan of the half cone angle):
+                    # at least the documented height 2 sin(atan(max(|z_min|, |z_max|) / (rs - rho))) (rs + rd), for volumes that reach
+                    # further below the source plane than above it, lie entirely on one side of it, or straddle it
+                    zabs = max(abs(float(sp.min_pt[2])), abs(float(sp.max_pt[2])))
+                    hdoc = 2 * np.sin(np.arctan(zabs / (sr - rho))) * (sr + dr)
+                    hgot = float(g.det_params.extent[1])
+                    if hgot < hdoc * (1 - 1e-9):
+                        ctx.violation(name, '3d;axial', 'detector-lower-than-documented-height', height=hgot, documented=float(hdoc), z=(float(sp.min_pt[2]), float(sp.max_pt[2])))
             if nd == 3:
                 ctx.ev('factories')
                 g = TOMO.helical_geometry(sp, sr, dr, num_turns=2, n_pi=1, num_angles=9)
